@@ -10,7 +10,7 @@ CONSTANTS
   A2U <- AWide
   MaxEdges = 3
   Modes1 <- AllModes
-  ModesO <- AllModes
+  ModesO <- ImplUnsup
   QuerySet = "core"
 INVARIANT ImplRefinesReq
 INVARIANT ReqTotal
